@@ -38,6 +38,8 @@ META = {
 def run(ctx):
     obs = ctx.obs
     obs.extra['meta'] = META
+    from ..model import set_declaration_order_varies
+    set_declaration_order_varies(True)     # some datasets declare the x dimension before y
     total = ctx.n(480, 10000)
     for case, rng in ctx.cases(total):
         conv = CONVENTIONS[case % len(CONVENTIONS)]
